@@ -17,7 +17,8 @@ ContextFound.
 """
 import json, re, sys
 
-from zope.interface import Interface, implementer, providedBy, implementedBy, alsoProvides
+from zope.interface import (Interface, implementer, providedBy, implementedBy, alsoProvides, noLongerProvides, directlyProvides,
+                            directlyProvidedBy)
 from zope.interface.interface import InterfaceClass
 
 import webob
@@ -47,7 +48,8 @@ RULE = ('one case = one application (1-2 root factories with 1-3 level resource 
 
 I1 = InterfaceClass('I1', (Interface,), __doc__='harness interface 1')
 I2 = InterfaceClass('I2', (I1,), __doc__='harness interface 2 (extends I1)')
-IFACES = {1: I1, 2: I2}
+I3 = InterfaceClass('I3', (Interface,), __doc__='harness interface 3: an independent run-time marker')
+IFACES = {1: I1, 2: I2, 3: I3}
 BUILTINS = {
     'Exception': Exception, 'ValueError': ValueError, 'KeyError': KeyError, 'LookupError': LookupError,
     'HTTPException': hx.HTTPException, 'HTTPClientError': hx.HTTPClientError, 'HTTPNotFound': hx.HTTPNotFound,
@@ -67,7 +69,60 @@ METHODS = ['GET', 'GET', 'HEAD', 'POST', 'PUT']
 
 
 class Node(dict):
-    """a traversable resource"""
+    """a traversable resource; `__getitem__` applies the application's run-time marks of the point `traversal` to the child
+    it hands out"""
+
+    def __getitem__(self, key):
+        child = dict.__getitem__(self, key)
+        w = getattr(self, '_vf_w', None)
+        if w is not None:
+            apply_marks(w, 'traversal', None, only=child)
+        return child
+
+
+def all_nodes(w):
+    out = []
+
+    def walk(n):
+        out.append(n)
+        for c in dict.values(n):
+            walk(c)
+    for r in w.roots:
+        walk(r)
+    return out
+
+
+def node_at(w, ri, pos):
+    n = w.roots[ri]
+    for s in pos:
+        n = dict.__getitem__(n, s)
+    return n
+
+
+def apply_marks(w, at, request, only=None):
+    """run-time marking: `alsoProvides` / `noLongerProvides` of I1 / I2 / I3 on a resource INSTANCE at one of the points
+    new_request, root_factory, before_traversal, traversal (the node `__getitem__` hands out), context_found"""
+    for m in w.marks:
+        if m['at'] != at:
+            continue
+        try:
+            if m['target'] == ['ctx']:
+                obj = request.__dict__.get('context') if request is not None else None
+            else:
+                obj = node_at(w, m['target'][1], m['target'][2])
+        except (KeyError, IndexError):
+            obj = None
+        if obj is None or not isinstance(obj, Node) or (only is not None and obj is not only):
+            continue
+        iface = IFACES[m['iface']]
+        if m['op'] == 'add':
+            alsoProvides(obj, iface)
+        elif iface in directlyProvidedBy(obj):
+            noLongerProvides(obj, iface)
+
+
+def sro_snapshot(w):
+    return {json.dumps(n._vf_key): [spec_id(w, sp) for sp in providedBy(n).__sro__] for n in all_nodes(w)}
 
 
 class World:
@@ -291,6 +346,7 @@ def build_tree(w, ri, nd, pos, parent=None):
     for i in nd.get('provides', []):
         alsoProvides(n, IFACES[i])
     n._vf_key = ['res', ri, list(pos)]
+    n._vf_w = w
     n.__name__ = pos[-1] if pos else ''          # location-aware: containment= / physical_path= walk __parent__ / __name__
     n.__parent__ = parent
     for name, sub in nd.get('kids', []):
@@ -320,11 +376,16 @@ def build_app(app):
     w.classes = make_classes(app['classes'])
     w.xclasses = make_xclasses(app['xclasses'])
     w.log = {'hooks': [], 'seen': [], 'permits': []}
-    w.roots = [build_tree(w, ri, r['tree'], []) for ri, r in enumerate(app['roots'])]
+    w.marks = list(app.get('marks', []))
+    w.roots = []
+    for ri, r in enumerate(app['roots']):
+        w.roots.append(build_tree(w, ri, r['tree'], []))
+    w.initial = [(n, tuple(directlyProvidedBy(n))) for n in all_nodes(w)]
     w.route_names = [r['name'] for r in app['routes']]
 
     def factory(i, hook):
         def f(request):
+            apply_marks(w, 'root_factory', request)
             w.log['hooks'].append([hook, snapshot(w, request)])
             exc = app['roots'][i].get('raises')
             if exc is not None:
@@ -341,8 +402,12 @@ def build_app(app):
         config.set_security_policy(TablePolicy(w))
     config.add_tween('harness_x01.over_factory', over=EXCVIEW)
     config.add_tween('harness_x01.under_factory', under=EXCVIEW)
+    for ev, at in ((NewRequest, 'new_request'), (BeforeTraversal, 'before_traversal'), (ContextFound, 'context_found')):
+        config.add_subscriber((lambda event, at=at: apply_marks(w, at, event.request)), ev)       # marks first
     for ev, nm in ((NewRequest, 'NewRequest'), (BeforeTraversal, 'BeforeTraversal'), (ContextFound, 'ContextFound')):
         config.add_subscriber((lambda event, nm=nm: w.log['hooks'].append([nm, snapshot(w, event.request)])), ev)
+    # LAST ContextFound subscriber: what every resource provides when the view lookup starts (zope.interface only)
+    config.add_subscriber((lambda event: w.log.__setitem__('sro_snap', sro_snapshot(w))), ContextFound)
     for r in app['routes']:
         rkw = {}
         if r.get('factory') is not None:
@@ -356,7 +421,10 @@ def build_app(app):
         def view(context, request, tag=tag, body=body):
             d = request.__dict__
             ei = d.get('exc_info')
+            rc = d.get('context')
             w.log['seen'].append({'tag': tag, 'context': ctx_key(w, context), 'snap': snapshot(w, request),
+                                  'reread': None if not isinstance(rc, Node) else
+                                  [json.dumps(rc._vf_key), [spec_id(w, sp) for sp in providedBy(rc).__sro__]],
                                   'excpath': w.log.get('caught') is not None,
                                   'saw': [cls_id(w, context) if isinstance(context, BaseException) else 'resource',
                                           None if d.get('exception') is None else cls_id(w, d['exception']),
@@ -424,6 +492,8 @@ def make_environ(rq):
 def observe(w, case):
     """send the request through Router.__call__; canonical observation in the shape of the driver's OUT"""
     env = make_environ(case['req'])
+    for n, init in w.initial:                      # worlds are cached: undo the marks of earlier requests
+        directlyProvides(n, *init)
     w.log.clear()
     w.log.update({'hooks': [], 'seen': [], 'permits': []})
     sh = {}
@@ -452,6 +522,7 @@ def observe(w, case):
     obs.update(canon_snap(w, snap))
     trav = snap.get('trav')
     extra = {'seen': list(w.log['seen']), 'permits': list(w.log['permits']), 'env': env,
+             'sro_snap': w.log.get('sro_snap') or sro_snapshot(w),
              'croot': None if trav is None else trav['croot'],
              'caught_ref': None if caught is None else exc_ref_of(w, caught)}
     return obs, extra
@@ -529,10 +600,14 @@ def tree_json(nd):
     return {'g': True, 'k': [[codes(name), tree_json(sub)] for name, sub in nd.get('kids', [])]}
 
 
-def tree_sros(w, node, pos, out):
-    out.append([[codes(s) for s in pos], [spec_id(w, s) for s in providedBy(node).__sro__]])
-    for name, sub in node.items():
-        tree_sros(w, sub, pos + [name], out)
+def tree_sros(w, node, pos, out, snap=None):
+    """what every resource provides when the lookup starts: the last ContextFound subscriber's snapshot (or, when the request
+    never got that far, the state the request left)"""
+    key = json.dumps(node._vf_key)
+    sro = snap[key] if snap is not None and key in snap else [spec_id(w, s) for s in providedBy(node).__sro__]
+    out.append([[codes(s) for s in pos], sro])
+    for name, sub in dict.items(node):
+        tree_sros(w, sub, pos + [name], out, snap)
     return out
 
 
@@ -542,12 +617,12 @@ def key_json(w, key):
     return ['exc', exc_record(w, make_exc(w, key[1]))['sro']]
 
 
-def model_input(w, case):
+def model_input(w, case, snap=None):
     app, rq = case['app'], case['req']
     names = [r['name'] for r in app['routes']]
     routes = [{'name': codes(r['name']), 'pattern': codes(r['pattern']), 'pred': r.get('pred'), 'factory': r.get('factory'),
                'iface': 1 + i, 'comb': 20 + i, 'ugv': bool(r.get('ugv'))} for i, r in enumerate(app['routes'])]
-    roots = [{'tree': tree_json(r['tree']), 'sro': tree_sros(w, w.roots[ri], [], []),
+    roots = [{'tree': tree_json(r['tree']), 'sro': tree_sros(w, w.roots[ri], [], [], snap),
               'raises': None if r.get('raises') is None else exc_record(w, make_exc(w, r['raises']))}
              for ri, r in enumerate(app['roots'])]
     views = []
@@ -694,7 +769,7 @@ def pred_key(st):
     return json.dumps([st.get('opts', {}), sorted(st.get('not', []))], sort_keys=True)
 
 
-def oracle(w, case):
+def oracle(w, case, snap=None):
     """acceptable observations per the declarative reading.  Everything but the choice *inside* one
     (request interface, context interface) slot is determined; inside a slot C03 decides, and any qualifying view of the
     slot is accepted here.  Returns {'attrs': {...}, 'hooks': [...], 'finals': [(final, caught, finding|None)…]}"""
@@ -863,7 +938,7 @@ def oracle(w, case):
         res = dict.__getitem__(res, s)
         lineage.insert(0, res)
     cinfo['lineage'], cinfo['phys'] = lineage, [''] + pos
-    csro = [spec_id(w, s) for s in providedBy(res).__sro__]
+    csro = (snap or {}).get(json.dumps(res._vf_key)) or [spec_id(w, s) for s in providedBy(res).__sro__]
     finals = []
     for r in lookup(False, attrs['rsro'], csro, view_name, md, ['res', ri, pos]):
         if r[0] == 'body':
@@ -892,7 +967,7 @@ FINDINGS = {
 
 def judge(w, case, obs, extra):
     """None, or a violation dict: the implementation's observation is not acceptable under the declarative reading"""
-    exp = oracle(w, case)
+    exp = oracle(w, case, extra.get('sro_snap'))
     vr = case['req'].get('vroot') is not None
 
     def er(a):
@@ -913,6 +988,8 @@ def judge(w, case, obs, extra):
     elif got_hooks != want_hooks:
         bad = [n for (n, a), (_, b) in zip(got_hooks, want_hooks) if a != b]
         detail = 'attributes visible to the subscriber / factory at %s differ from the reading' % ', '.join(bad)
+    elif [x for x in extra['seen'] if not x['excpath'] and x.get('reread') and extra['sro_snap'].get(x['reread'][0]) != x['reread'][1]]:
+        detail = 'harness assertion: what the context provides changed between the last ContextFound subscriber and the view body'
     elif obs['seen'] is not None and obs['seen'] != [obs['caught'], obs['caught'], obs['caught'], None]:
         detail = 'the exception view did not see the caught exception as context / request.exception / exc_info'
     else:
@@ -1055,12 +1132,23 @@ def gen_app(rng, big=False):
         routes[-1].pop('pred', None)
         if routes[-1]['factory'] is None:
             routes[-1].pop('factory')
+    marks = []
+    if rng.random() < 0.3:
+        for _ in range(rng.randint(1, 3)):
+            at = rng.choice(['new_request', 'root_factory', 'before_traversal', 'traversal', 'context_found', 'context_found', 'context_found'])
+            ri = rng.randrange(nroots)
+            target = ['pos', ri, rng.choice(tree_paths(roots[ri]['tree'], [], []))]
+            if at == 'context_found' and rng.random() < 0.6:
+                target = ['ctx']
+            marks.append({'at': at, 'op': 'add' if rng.random() < 0.85 else 'remove', 'iface': rng.choice([3, 3, 3, 1, 2]), 'target': target})
     stmts, tag = [], 1
     pinfo = rng.random() < 0.3        # applications with path_info= predicates get no undecodable / missing PATH_INFO
     nviews = rng.randint(3, 8) if not big else rng.randint(8, 14)
     seen_keys = {}
     for _ in range(nviews):
         ctx = rng.choice([None, None, ['c', rng.randrange(len(classes))], ['c', rng.randrange(len(classes))], ['i', rng.choice([1, 2])]])
+        if marks and rng.random() < 0.4:
+            ctx = ['i', rng.choice([3, 3, 3, 1, 2])]          # marker views compete with class views
         if rng.random() < 0.06:
             ctx = rng.choice([['u', rng.randrange(len(xclasses))], ['b', rng.choice(CTX_BUILTINS)]])
         o, notted = gen_opts(rng, big)
@@ -1100,7 +1188,7 @@ def gen_app(rng, big=False):
         # the default permission makes same-slot statements with and without `permission=` both protected: coherent
         pass
     return {'classes': classes, 'xclasses': xclasses, 'roots': roots, 'defroot': rng.randrange(nroots) if rng.random() < 0.3 else 0,
-            'routes': routes, 'stmts': stmts, 'policy': rng.random() < 0.9, 'defperm': defperm, 'pinfo': pinfo}
+            'routes': routes, 'stmts': stmts, 'policy': rng.random() < 0.9, 'defperm': defperm, 'pinfo': pinfo, 'marks': marks}
 
 
 def tree_paths(nd, pos, out):
@@ -1245,6 +1333,13 @@ def shrink_case(case, finding=None):
     while changed:
         changed = False
         app = cur['app']
+        for i in range(len(app.get('marks', []))):
+            c = {'app': dict(app, marks=app['marks'][:i] + app['marks'][i + 1:]), 'req': cur['req']}
+            if ok(c):
+                cur, changed = c, True
+                break
+        if changed:
+            continue
         for i in range(len(app['stmts'])):
             c = {'app': dict(app, stmts=app['stmts'][:i] + app['stmts'][i + 1:]), 'req': cur['req']}
             if ok(c):
@@ -1331,7 +1426,7 @@ def run(ctx):
             break
         try:
             w, obs, extra, v = check_impl(case)
-            minfo = model_input(w, case) if ctx.driver_path else None
+            minfo = model_input(w, case, extra['sro_snap']) if ctx.driver_path else None
             results.append((w, obs, extra, v, minfo))
         except Exception as e:
             results.append((None, ['harness-error', '%s: %s' % (type(e).__name__, e)], None,
@@ -1350,7 +1445,8 @@ def run(ctx):
             'md_keys': {}, 'context_depth': {}, 'view_name': {}, 'subpath_len': {}, 'stages_working': {}, 'hooks_len': {},
             'permits_asked': 0, 'refused_403': 0, 'undecodable': 0, 'spec_vs_model_disagree': 0, 'incoherent': 0, 'not_wf': 0,
             'finding_hits': {}, 'stmts': {}, 'vroot_requests': 0, 'vroot_traversed_differs_from_reading': 0, 'vroot_undecodable': 0,
-            'traversal_predicates_in_app': {}, 'exception_view_seen_checked': 0}
+            'traversal_predicates_in_app': {}, 'exception_view_seen_checked': 0,
+            'marked_cases': 0, 'marks_at': {}, 'context_provides_runtime_marker': 0, 'marker_view_answered': 0}
     samples = []
     for case, (w, obs, extra, v, minfo), mo in zip(cases, results, model):
         key = vfutil.canon(case)
@@ -1389,6 +1485,22 @@ def run(ctx):
                     vfutil.bump(dist['traversal_predicates_in_app'], k)
         if obs['seen'] is not None:
             dist['exception_view_seen_checked'] += 1
+        if case['app'].get('marks'):
+            dist['marked_cases'] += 1
+            for mk in case['app']['marks']:
+                vfutil.bump(dist['marks_at'], mk['at'])
+            if obs['trav'] is not None and obs['root'] is not None:
+                ckey = json.dumps(['res', obs['root'], obs['trav']['context']])
+                now = extra['sro_snap'].get(ckey)
+                node0 = [(n, init) for n, init in w.initial if json.dumps(n._vf_key) == ckey]
+                if now is not None and node0:
+                    init = node0[0][1]
+                    if any(i in now and IFACES[i] not in init and not IFACES[i].implementedBy(type(node0[0][0])) for i in (1, 2, 3)):
+                        dist['context_provides_runtime_marker'] += 1
+            if obs['final'][:2] == ['resp', 'view']:
+                stv = [x for x in case['app']['stmts'] if x['tag'] == obs['final'][2]]
+                if stv and stv[0].get('ctx') and stv[0]['ctx'][0] == 'i':
+                    dist['marker_view_answered'] += 1
         st = stage_stats(case, obs, extra)
         nwork = sum(1 for x in st.values() if x)
         vfutil.bump(dist['stages_working'], nwork)
@@ -1495,7 +1607,7 @@ def replay(ctx, rep):
     out = {'case': case, 'impl': obs, 'oracle': oracle(w, case)['finals'], 'violation': v,
            'violates': v is not None and not v.get('finding'), 'finding': (v or {}).get('finding')}
     if ctx.driver_path:
-        mo = ctx.run_model([model_input(w, case)])[0]
+        mo = ctx.run_model([model_input(w, case, extra['sro_snap'])])[0]
         out['model'] = canon_model_out(w, mo.get('model')) if 'error' not in mo else mo
         out['spec'] = canon_model_out(w, mo.get('spec')) if 'error' not in mo else None
         out['model_agrees'] = out['model'] == obs
